@@ -74,11 +74,13 @@ def _unet_grid(tier):
     for ms in ((8, 16) if tier == "quick" else (8, 16, 32)):
         for os_ in (1, 2, 4):
             for stem in ((None, 2) if tier == "quick" else (None, 2, 4)):
-                for fr in (2, 1.5):
+                for fr, nf in ((2, 4), (1.5, 4), (1.5, 5), (1.5, 6)):  # with a fractional rate the per-level channel counts are truncated: base widths whose products are fractional at several depths
                     for cpb in ((1, 2) if tier == "quick" else (1, 2, 3)):
                         for mid in (True, False):
                             for up in (True, False):
-                                out.append(("unet", {"in_channels": 1, "kernel_size": 3, "filters": 4, "filters_rate": fr, "max_stride": ms, "convs_per_block": cpb, "stacks": 1,
+                                if nf != 4 and (cpb == 1 or not mid):
+                                    continue  # the two known-finding classes are covered with the base width 4
+                                out.append(("unet", {"in_channels": 1, "kernel_size": 3, "filters": nf, "filters_rate": fr, "max_stride": ms, "convs_per_block": cpb, "stacks": 1,
                                                      "stem_stride": stem, "middle_block": mid, "up_interpolate": up, "output_stride": os_}))
     return out
 
